@@ -1,8 +1,12 @@
 (* Properties_C06.v -- C06: every relaxation sweep equals its mathematical definition.
-   Statements only; proofs live in RelaxProofs.v, ChebyProofs.v, IluProofs.v, Ilu0Exact.v.
+   Statements only; proofs live in RelaxProofs.v, ChebyProofs.v, IluProofs.v, Ilu0Exact.v,
+   IluRefute.v.
    "field": for every field with decidable equality (Section hypotheses), closed at Qc.
    Dense semantics: mget A i j (duplicate entries add), Ax A x i = sum_j A_ij x_j. *)
-From Amgcl Require Import Scalar QcInst Vec Crs Kernels KernelsProofs MatOps Relax RelaxProofs.
+From Coq Require Import QArith_base.
+From Amgcl Require Import Scalar QcInst Vec Crs Kernels KernelsProofs MatOps Relax RelaxProofs
+  Ilu IluProofs Ilu0Exact IluRefute Cheby ChebyProofs.
+Local Close Scope Q_scope.
 Local Open Scope S_scope.
 
 Section Field.
@@ -74,10 +78,211 @@ Theorem C06_gs_fixed_point (A : crs S) (rhs x : vec S) (b : bool) :
   gs_sweep A rhs x b = x.
 Proof. exact (gs_fixed_point Sft A rhs x b). Qed.
 
-End Field.
+(* --- 4. triangular solve (detail::ilu_solve, serial): (I+L)(D^-1+U) x = b in substitution
+       form, for strictly lower L, strictly upper U, D holding the inverted pivots ------ *)
+Theorem C06_lsolve_forward_substitution (L : crs S) (b : vec S) :
+  strict_lower L -> length b = nrows L ->
+  length (lsolve L b) = length b /\
+  (forall i, i < nrows L ->
+     vget (lsolve L b) i + sumn (fun j => mget L i j * vget (lsolve L b) j) (nrows L) = vget b i).
+Proof. exact (lsolve_spec (F_R Sft) L b). Qed.
 
+Theorem C06_usolve_backward_substitution (n : nat) (U : crs S) (D y : vec S) :
+  strict_upper n U -> length y = n ->
+  length (usolve n U D y) = n /\
+  (forall i, i < n ->
+     vget (usolve n U D y) i =
+     vget D i * (vget y i - sumn (fun j => mget U i j * vget (usolve n U D y) j) n)).
+Proof. exact (usolve_spec (F_R Sft) n U D y). Qed.
+
+Theorem C06_ilu_solve (L U : crs S) (D b : vec S) :
+  strict_lower L -> strict_upper (nrows L) U -> length b = nrows L ->
+  forall i, i < nrows L -> vget D i <> s0 ->
+  let y := lsolve L b in let x := ilu_solve L U D b in
+  vget y i + sumn (fun j => mget L i j * vget y j) (nrows L) = vget b i /\
+  sinv (vget D i) * vget x i + sumn (fun j => mget U i j * vget x j) (nrows L) = vget y i.
+Proof. exact (ilu_solve_spec_field Sft L U D b). Qed.
+
+(* the solve is a linear map (no structural hypothesis at all) *)
+Theorem C06_ilu_solve_linear (a b : S) (L U : crs S) (D w u v : vec S) :
+  length u = length w -> length v = length w ->
+  (forall i, i < length w -> vget w i = a * vget u i + b * vget v i) ->
+  forall i, vget (ilu_solve L U D w) i =
+            a * vget (ilu_solve L U D u) i + b * vget (ilu_solve L U D v) i.
+Proof. exact (ilu_solve_linear (F_R Sft) a b L U D w u v). Qed.
+
+(* --- 3 (cont.). fixed point of every ILU-type sweep (ilu0, iluk, ilup, ilut share ilu_sweep),
+       for ANY factors: residual 0, the solve of the zero vector is zero ------------------ *)
+Theorem C06_ilu_sweep_fixed_point (w : S) (L U : crs S) (D : vec S) (A : crs S) (rhs x tmp : vec S) :
+  wf A = true -> length rhs = nrows A -> length x = nrows A -> length tmp = nrows A ->
+  (forall i, i < nrows A -> Ax A x i = vget rhs i) ->
+  forall i, i < nrows A -> vget (fst (ilu_sweep w L U D A rhs x tmp)) i = vget x i.
+Proof. exact (ilu_sweep_fixed_point (F_R Sft) Seqb w L U D A rhs x tmp). Qed.
+
+(* --- 5. ILU(0): exact on the pattern of A, provided no zero pivot (= the run returns Ok) --- *)
+Theorem C06_ilu0_exact_on_pattern (A : crs S) (junk : vec S) (L U : crs S) (D : vec S) :
+  wf A = true -> ncols A = nrows A ->
+  (forall i, i < nrows A -> sorted_strict (nth i (rows A) []) = true) ->
+  has_diag A = true ->
+  ilu0 A junk = Ok (L, U, D) ->
+  forall i j, i < nrows A -> has_col j (nth i (rows A) []) = true ->
+    lu_entry L U D i j = mget A i j.
+Proof. exact (ilu0_exact_on_pattern Sft Seqb A junk L U D). Qed.
+
+(* the factors ilu0 hands to ilu_solve satisfy the substitution equations *)
+Theorem C06_ilu0_solve (A : crs S) (junk : vec S) (L U : crs S) (D b : vec S) :
+  ilu0 A junk = Ok (L, U, D) -> wf A = true -> ncols A = nrows A -> length b = nrows A ->
+  length (ilu_solve L U D b) = nrows A /\
+  (forall i, i < nrows A ->
+     vget (lsolve L b) i + sumn (fun j => mget L i j * vget (lsolve L b) j) (nrows A) = vget b i /\
+     vget (ilu_solve L U D b) i =
+     vget D i * (vget (lsolve L b) i - sumn (fun j => mget U i j * vget (ilu_solve L U D b) j) (nrows A))).
+Proof. exact (ilu0_solve_spec (F_R Sft) A junk L U D b). Qed.
+
+(* ILUP = ILU(0) on P = ilup_matrix k A (pattern of A^(k+1) filled with the values of A).
+   FULL STATEMENT (unproved) of the symbolic-product part: see IluRefute.v. *)
+Theorem C06_ilup_exact_on_pattern (k : nat) (A : crs S) (junk : vec S) (L U : crs S) (D : vec S) :
+  let P := ilup_matrix k A in
+  wf P = true -> ncols P = nrows P ->
+  (forall i, i < nrows P -> sorted_strict (nth i (rows P) []) = true) ->
+  has_diag P = true ->
+  ilup k A junk = Ok (L, U, D) ->
+  forall i j, i < nrows P -> has_col j (nth i (rows P) []) = true ->
+    lu_entry L U D i j = mget P i j.
+Proof. exact (ilup_exact_on_pattern Sft Seqb k A junk L U D). Qed.
+
+(* --- 7. Chebyshev: fixed point; the sweep is linear in (b, x) (affine in x for fixed b) and
+       does not depend on the content of its workspaces p, r ---------------------------- *)
+Theorem C06_cheby_fixed_point (c d : S) (M : option (vec S)) (degree : nat) (A : crs S) (b x p r : vec S) :
+  wf A = true -> length b = nrows A -> length x = nrows A -> length p = nrows A -> length r = nrows A ->
+  (forall m, M = Some m -> length m = nrows A) ->
+  (forall i, i < nrows A -> Ax A x i = vget b i) ->
+  forall i, i < nrows A -> vget (cheby_sweep (c, d, M) degree A b x p r) i = vget x i.
+Proof. exact (cheby_sweep_fixed_point (F_R Sft) Seqb c d M degree A b x p r). Qed.
+
+Theorem C06_cheby_linear (c d : S) (M : option (vec S)) (degree : nat) (A : crs S) (a1 a2 : S)
+        (b x p r b1 x1 p1 r1 b2 x2 p2 r2 : vec S) :
+  wf A = true ->
+  length b = nrows A -> length x = nrows A -> length p = nrows A -> length r = nrows A ->
+  length b1 = nrows A -> length x1 = nrows A -> length p1 = nrows A -> length r1 = nrows A ->
+  length b2 = nrows A -> length x2 = nrows A -> length p2 = nrows A -> length r2 = nrows A ->
+  (forall m, M = Some m -> length m = nrows A) ->
+  (forall i, i < nrows A -> vget b i = a1 * vget b1 i + a2 * vget b2 i) ->
+  (forall i, i < nrows A -> vget x i = a1 * vget x1 i + a2 * vget x2 i) ->
+  forall i, i < nrows A ->
+  vget (cheby_sweep (c, d, M) degree A b x p r) i =
+  a1 * vget (cheby_sweep (c, d, M) degree A b1 x1 p1 r1) i +
+  a2 * vget (cheby_sweep (c, d, M) degree A b2 x2 p2 r2) i.
+Proof. exact (cheby_sweep_linear (F_R Sft) Seqb c d M degree A a1 a2 b x p r b1 x1 p1 r1 b2 x2 p2 r2). Qed.
+
+Theorem C06_cheby_workspace_independent (c d : S) (M : option (vec S)) (degree : nat) (A : crs S)
+        (b x p r p' r' : vec S) :
+  wf A = true -> length b = nrows A -> length x = nrows A ->
+  length p = nrows A -> length r = nrows A -> length p' = nrows A -> length r' = nrows A ->
+  (forall m, M = Some m -> length m = nrows A) ->
+  forall i, i < nrows A ->
+  vget (cheby_sweep (c, d, M) degree A b x p r) i = vget (cheby_sweep (c, d, M) degree A b x p' r') i.
+Proof. exact (cheby_sweep_junk_independent (F_R Sft) Seqb c d M degree A b x p r p' r'). Qed.
+
+End Field.
 Print Assumptions C06_jacobi_sweep.
 Print Assumptions C06_spai0_sweep.
 Print Assumptions C06_gs_forward.
 Print Assumptions C06_gs_backward.
+Print Assumptions C06_jacobi_fixed_point.
+Print Assumptions C06_spai0_fixed_point.
 Print Assumptions C06_gs_fixed_point.
+Print Assumptions C06_lsolve_forward_substitution.
+Print Assumptions C06_usolve_backward_substitution.
+Print Assumptions C06_ilu_solve.
+Print Assumptions C06_ilu_solve_linear.
+Print Assumptions C06_ilu_sweep_fixed_point.
+Print Assumptions C06_ilu0_exact_on_pattern.
+Print Assumptions C06_ilu0_solve.
+Print Assumptions C06_ilup_exact_on_pattern.
+Print Assumptions C06_cheby_fixed_point.
+Print Assumptions C06_cheby_linear.
+Print Assumptions C06_cheby_workspace_independent.
+
+(* --- structure of the factors: no algebra, every Scalar record ----------------------- *)
+Theorem C06_ilu0_structure (S : Scalar) (A : crs S) (junk : vec S) (L U : crs S) (D : vec S) :
+  ilu0 A junk = Ok (L, U, D) ->
+  nrows L = nrows A /\ nrows U = nrows A /\ length D = nrows A /\ ncols L = nrows A /\ ncols U = nrows A /\
+  (forall i c v, In (c, v) (nth i (rows L) []) -> c < i /\ In c (map fst (nth i (rows A) []))) /\
+  (forall i c v, In (c, v) (nth i (rows U) []) -> i < c /\ In c (map fst (nth i (rows A) []))).
+Proof. exact (ilu0_structure A junk L U D). Qed.
+Print Assumptions C06_ilu0_structure.
+
+Theorem C06_iluk_structure (S : Scalar) (lfil : nat) (A : crs S) (junk : vec S) (L U : crs S) (D : vec S) :
+  iluk lfil A junk = (L, U, D) ->
+  nrows L = nrows A /\ nrows U = nrows A /\ length D = nrows A /\ ncols L = nrows A /\ ncols U = nrows A /\
+  (forall i c v, In (c, v) (nth i (rows L) []) -> c < i) /\
+  (forall i c v, In (c, v) (nth i (rows U) []) -> i < c).
+Proof. exact (iluk_structure lfil A junk L U D). Qed.
+Print Assumptions C06_iluk_structure.
+
+(* --- 6. ILU(k): exactness on the admitted pattern is REFUTED for the model of iluk.hpp
+       (known finding C06-iluk-readmit; witness replayed on the implementation).
+       FULL STATEMENT (unproved) of the provable variant: see IluRefute.v. ---------------- *)
+Theorem C06_iluk_exact_on_pattern_refuted :
+  exists (k : nat) (A : crs QcS) (junk : vec QcS) (L U : crs QcS) (D : vec QcS) (i j : nat),
+    wf A = true /\ ncols A = nrows A /\ rows_sorted A = true /\ has_diag A = true /\
+    iluk k A junk = (L, U, D) /\ no_zero_pivot D = true /\
+    i < nrows A /\ admitted L U i j = true /\
+    lu_entry L U D i j <> mget A i j.
+Proof. exact iluk_exact_on_pattern_refuted. Qed.
+Print Assumptions C06_iluk_exact_on_pattern_refuted.
+
+(* ILUT(p = 1, tau = 0) is not exact on a 2x2 tridiagonal matrix (known finding
+   C06-ilut-diag-budget): the diagonal is counted in the int(lenU*p) places of the U part *)
+Theorem C06_ilut_p1_not_exact_on_tridiagonal :
+  let r := ilut (1 # 1)%Q (qz 0) ilut_witness [] in
+  let L := fst (fst (fst r)) in let U := snd (fst (fst r)) in let D := snd (fst r) in
+  snd r = false /\ no_zero_pivot D = true /\ nth 0 (rows U) [] = [] /\
+  lu_entry L U D 0 1 <> mget ilut_witness 0 1.
+Proof. exact ilut_p1_not_exact_on_tridiagonal. Qed.
+Print Assumptions C06_ilut_p1_not_exact_on_tridiagonal.
+
+(* --- closed instances at the exact rationals ------------------------------------------ *)
+Theorem C06_ilu0_exact_on_pattern_Qc (A : crs QcS) (junk : vec QcS) (L U : crs QcS) (D : vec QcS) :
+  wf A = true -> ncols A = nrows A ->
+  (forall i, i < nrows A -> sorted_strict (nth i (rows A) []) = true) ->
+  has_diag A = true ->
+  ilu0 A junk = Ok (L, U, D) ->
+  forall i j, i < nrows A -> has_col j (nth i (rows A) []) = true ->
+    lu_entry L U D i j = mget A i j.
+Proof. exact (C06_ilu0_exact_on_pattern QcS QcS_field QcS_eqb A junk L U D). Qed.
+Print Assumptions C06_ilu0_exact_on_pattern_Qc.
+
+Theorem C06_gs_fixed_point_Qc (A : crs QcS) (rhs x : vec QcS) (b : bool) :
+  wf A = true -> length x = nrows A ->
+  (forall i, i < nrows A -> Ax A x i = vget rhs i) ->
+  (forall k, k < nrows A -> diag_unique A k) ->
+  (forall k, k < nrows A -> mget A k k <> s0) ->
+  gs_sweep A rhs x b = x.
+Proof. exact (C06_gs_fixed_point QcS QcS_field A rhs x b). Qed.
+Print Assumptions C06_gs_fixed_point_Qc.
+
+Theorem C06_ilu_solve_Qc (L U : crs QcS) (D b : vec QcS) :
+  strict_lower L -> strict_upper (nrows L) U -> length b = nrows L ->
+  forall i, i < nrows L -> vget D i <> s0 ->
+  let y := lsolve L b in let x := ilu_solve L U D b in
+  vget y i + sumn (fun j => mget L i j * vget y j) (nrows L) = vget b i /\
+  sinv (vget D i) * vget x i + sumn (fun j => mget U i j * vget x j) (nrows L) = vget y i.
+Proof. exact (C06_ilu_solve QcS QcS_field L U D b). Qed.
+Print Assumptions C06_ilu_solve_Qc.
+
+Theorem C06_cheby_fixed_point_Qc (c d : QcS) (M : option (vec QcS)) (degree : nat) (A : crs QcS) (b x p r : vec QcS) :
+  wf A = true -> length b = nrows A -> length x = nrows A -> length p = nrows A -> length r = nrows A ->
+  (forall m, M = Some m -> length m = nrows A) ->
+  (forall i, i < nrows A -> Ax A x i = vget b i) ->
+  forall i, i < nrows A -> vget (cheby_sweep (c, d, M) degree A b x p r) i = vget x i.
+Proof. exact (C06_cheby_fixed_point QcS QcS_field QcS_eqb c d M degree A b x p r). Qed.
+Print Assumptions C06_cheby_fixed_point_Qc.
+
+(* non-vacuity: a concrete tridiagonal matrix meets every hypothesis of the ILU(0) theorem,
+   the factorisation succeeds, and a fill position outside the pattern is NOT reproduced *)
+Example C06_ilu0_nonvacuous : x0_A4_check = true.
+Proof. exact x0_A4_nonvacuous. Qed.
+Example C06_sweeps_nonvacuous : c06_sweeps_check = true.
+Proof. exact c06_sweeps_check_ok. Qed.
